@@ -336,6 +336,19 @@ def eof_outcomes(sm, fi, depth=0):
     return _EOF_OUTCOMES[fi.qualname]
 
 
+def _eof_call_value(sm, fi, v, depth):
+    """value of a call expression at end of stream: NONE when every normal outcome of the callee is None."""
+    val = UNK
+    if isinstance(v, ast.Call) and call_name(v) in OPTIONAL_SOURCES and isinstance(v.func, ast.Attribute):
+        return NONE
+    if isinstance(v, ast.Call):
+        for cal in sm.callees(fi, v):
+            if sm.may_none.get(cal.qualname):
+                oc = eof_outcomes(sm, cal, depth + 1)
+                val = NONE if "value" not in oc else UNK
+    return val
+
+
 def eof_transfer(sm, fi, n, st, depth=0):
     """new state, or 'END' when the path cannot continue normally at end of stream."""
     if sm.node_raises_at_eof(fi, n):
@@ -361,13 +374,8 @@ def eof_transfer(sm, fi, n, st, depth=0):
         v = n.ast.value
         new = dict(st)
         val = UNK
-        if isinstance(v, ast.Call) and call_name(v) in OPTIONAL_SOURCES and isinstance(v.func, ast.Attribute):
-            val = NONE
-        elif isinstance(v, ast.Call):
-            for cal in sm.callees(fi, v):
-                if sm.may_none.get(cal.qualname):
-                    oc = eof_outcomes(sm, cal, depth + 1)
-                    val = NONE if "value" not in oc else UNK
+        if isinstance(v, ast.Call):
+            val = _eof_call_value(sm, fi, v, depth)
         elif isinstance(v, ast.Constant):
             val = ("c", v.value) if v.value is not None else NONE
         elif isinstance(v, (ast.Name, ast.Attribute)):
@@ -448,7 +456,7 @@ def eof_explore(sm, fi, cfg, starts, start_state, inside, head, outcomes=None, d
         if n.kind == "stmt" and isinstance(n.ast, ast.Return):
             if outcomes is not None:
                 v = n.ast.value
-                if v is None or is_none(v) or (isinstance(v, (ast.Name, ast.Attribute)) and st2.get(norm(v)) == NONE):
+                if v is None or is_none(v) or (isinstance(v, (ast.Name, ast.Attribute)) and st2.get(norm(v)) == NONE) or (isinstance(v, ast.Call) and _eof_call_value(sm, fi, v, depth) == NONE):
                     outcomes.add("none")
                 else:
                     outcomes.add("value")
